@@ -990,6 +990,11 @@ def gen_contract(rng, cx=False):
         yield from both("tensordot", sa, sb, kw={"axes": axes})
     yield from both("tensordot", (2, 3, 4), (3, 4, 2))
     yield from both("tensordot", (3, 4), (3, 4))
+    # axes as NumPy integer ARRAYS (a pair of 1-d arrays, one 2-d array), with negative entries: caller-owned
+    # objects a rule may not normalise in place
+    for axes_ in ((onp.array([-1, 1]), onp.array([0, 2])), onp.array([[-1, 1], [0, -1]]), (onp.array([-2]), onp.array([1])), [onp.array([2, -2]), [0, 2]]):
+        yield from both("tensordot", (2, 3, 4), (4, 2, 3), extra=[axes_])
+        yield from both("tensordot", (2, 3, 4), (4, 2, 3), kw={"axes": axes_})
     for (ca, cb) in mixes:
         yield case("tensordot", [A(rng, (), "any", ca), A(rng, (2, 2), "any", cb), 0], argnum=0)
         yield case("tensordot", [A(rng, (2, 2), "any", ca), A(rng, (), "any", cb), 0], argnum=1)
